@@ -611,8 +611,9 @@ def to_rgba(
         # 0.0-1.0
         colors = np.clip((colors * opaque).round(), 0, opaque)
 
-    if util.is_shape(colors, (-1, 3)):
+    if util.is_shape(colors, (-1, 3)) and colors.shape[1] == 3:
         # add an opaque alpha for RGB colors
+        # (`is_shape` matches any empty array: check the width)
         colors = np.column_stack((colors, opaque * np.ones(len(colors))))
     elif util.is_shape(colors, (3,)):
         # if passed a single RGB color add an alpha
